@@ -26,6 +26,8 @@ from ..engine.model import AnalysisError, src, walk_own, const_value
 from ..engine.poly import Poly
 from ..engine.polyinterp import PolyInterp, Uninterp
 from ..engine.kinds import Kinds
+from ..engine import tv
+from ..engine.inline import Inliner, norm_text
 from .c06 import assigns_of, resolve, returns_of
 
 GEN = 'basic_robotics.general.'
@@ -141,22 +143,24 @@ def check(model, rep):
     rep.ob('R18.1', mf, 'k = -(n.p %s d)/|n|^2 ; p\' = p + 2 k n' % ('-' if sign == -1 else '+'), ok_mirror, msg)
     # the plane is the frame's local XY plane
     pp = F(FSR, 'planePointsFromTransform')
-    r = returns_of(pp)
-    asg = {}
-    for n in walk_own(pp.node):
-        if isinstance(n, ast.Assign) and isinstance(n.targets[0], ast.Tuple):
-            asg = {src(t): i for i, t in enumerate(n.targets[0].elts)}
-            unit_src = src(n.value)
-    ok = bool(r) and isinstance(r[0].value, ast.Tuple) and len(r[0].value.elts) == 3 and src(r[0].value.elts[0]) == pp.params[0] \
-        and asg.get(src(r[0].value.elts[1])) == 0 and asg.get(src(r[0].value.elts[2])) == 1 and unit_src.endswith('.tripleUnit()')
-    rep.ob('R18.1', pp, '(frame, frame + x, frame + y)', ok, 'mirror plane is not spanned by the frame\'s local x and y unit points')
+    ok, why = tv.fi_matches_spec(model, pp, """
+        def planePointsFromTransform(frame):
+            ux, uy, uz = frame.tripleUnit()
+            return frame, ux, uy
+        """)
+    rep.ob('R18.1', pp, '(frame, frame + x, frame + y)', ok, 'mirror plane is not spanned by the frame\'s local x and y unit points: ' + why)
     tu = model.func(TMM, 'tm.tripleUnit')
-    cols = {}
-    for n in walk_own(tu.node):
-        if isinstance(n, ast.Assign) and isinstance(n.targets[0], ast.Subscript) and 'self.TM[0:3,' in src(n.value).replace(' ', ''):
-            cols[src(n.targets[0].value)] = src(n.value).replace(' ', '')
-    ok = cols.get('xvec') == 'self.TM[0:3,0]' and cols.get('yvec') == 'self.TM[0:3,1]' and cols.get('zvec') == 'self.TM[0:3,2]'
-    rep.ob('R18.1', tu, 'unit points use rotation columns 0,1,2 for x,y,z', ok, 'tripleUnit column assignment is %s' % cols)
+    ok, why = tv.fi_matches_spec(model, tu, """
+        def tripleUnit(self, lv=1):
+            ex = np.zeros((6, 1))
+            ey = np.zeros((6, 1))
+            ez = np.zeros((6, 1))
+            ex[0:3, 0] = self.TM[0:3, 0]
+            ey[0:3, 0] = self.TM[0:3, 1]
+            ez[0:3, 0] = self.TM[0:3, 2]
+            return tm(self.TAA + ex*lv), tm(self.TAA + ey*lv), tm(self.TAA + ez*lv)
+        """)
+    rep.ob('R18.1', tu, 'unit points use rotation columns 0,1,2 for x,y,z', ok, 'tripleUnit is not (pose + column 0, pose + column 1, pose + column 2): ' + why)
 
     # ---------------------------------------------------------------- R18.2
     rep.rule('R18.2', 'angle wrapping: guard threshold == modulus == 2*pi in every sibling')
@@ -200,112 +204,98 @@ def check(model, rep):
 
     # ---------------------------------------------------------------- R18.4
     rep.rule('R18.4', 'IKPath count/spacing; closeLinearGap step; midpoint position/rotation structure; arcDistance; lookAt frame')
-    ik = F(FSR, 'IKPath')
-    ini, goal, steps = ik.params
-    asg = assigns_of(ik)
-    dl = asg.get('delta', [None])[0]
-    ok_delta = dl is not None and src(dl).replace(' ', '') == '(%s.gTAA()-%s.gTAA())/(%s-1)' % (goal, ini, steps)
-    rep.ob('R18.4', ik, 'delta = (goal - initial)/(steps - 1)', ok_delta, 'delta is %s' % (src(dl) if dl is not None else '?'))
-    loops = [n for n in ik.body() if isinstance(n, ast.For)]
-    ok_loop = False
-    lst = None
-    if len(loops) == 1 and isinstance(loops[0].target, ast.Name):
-        lp = loops[0]
-        iv = lp.target.id
-        ok_rng = src(lp.iter).replace(' ', '') == 'range(%s-1)' % steps
-        apps = [c for c in ast.walk(lp) if isinstance(c, ast.Call) and isinstance(c.func, ast.Attribute) and c.func.attr == 'append']
-        lasg = {}
-        for n in ast.walk(lp):
-            if isinstance(n, ast.Assign) and isinstance(n.targets[0], ast.Name):
-                lasg.setdefault(n.targets[0].id, []).append(n.value)
-        el = resolve(apps[0].args[0], lasg) if len(apps) == 1 else None
-        ok_el = el is not None and src(el).replace(' ', '') in ('tm(%s.gTAA()+delta*%s)' % (ini, iv), 'tm(%s.gTAA()+%s*delta)' % (ini, iv))
-        ok_loop = ok_rng and ok_el
-        lst = src(apps[0].func.value) if apps else None
-        rep.ob('R18.4', ik, 'steps-1 poses initial + delta*i', ok_loop, 'range %s, element %s' % (src(lp.iter), src(el) if el is not None else '?'), line=lp.lineno)
-        after = [n for n in ik.body() if n.lineno > lp.end_lineno]
-        app2 = [c for s in after for c in ast.walk(s) if isinstance(c, ast.Call) and isinstance(c.func, ast.Attribute) and c.func.attr == 'append']
-        ok_goal = len(app2) == 1 and src(app2[0].func.value) == lst and src(app2[0].args[0]) == goal
-        rets = [n for n in after if isinstance(n, ast.Return)]
-        rep.ob('R18.4', ik, 'goal appended once, list returned', ok_goal and bool(rets) and src(rets[0].value) == lst,
-               'the path does not end with exactly the goal')
-    else:
-        rep.ob('R18.4', ik, 'generation loop', False, 'IKPath loop not recognised')
-    cl = F(FSR, 'closeLinearGap')
-    o_p, g_p, d_p = cl.params
-    asg = assigns_of(cl)
-    otg = asg.get('origin_to_goal', [None])[0]
-    var = asg.get('var', [None])[0]
-    ok1 = otg is not None and src(otg).replace(' ', '') == '%s-%s' % (g_p, o_p)
-    ok2 = var is not None and 'Norm6(origin_to_goal[0:6])' in src(var)
-    st = [n for n in ast.walk(cl.node) if isinstance(n, ast.Assign) and isinstance(n.targets[0], ast.Subscript) and src(n.targets[0].value) == 'return_transform']
-    ok3 = len(st) == 1 and src(st[0].value).replace(' ', '') == '%s.TAA[i]+origin_to_goal[i]/var*%s' % (o_p, d_p)
-    rets = returns_of(cl)
-    ok4 = any(src(r.value) == 'tm(return_transform)' for r in rets)
-    rep.ob('R18.4', cl, 'origin + (goal-origin)/|goal-origin| * delta', ok1 and ok2 and ok3 and ok4,
-           'closeLinearGap does not advance by exactly delta along the unit direction to the goal')
-    mid = F(FSR, 'tmInterpMidpoint')
-    r1, r2 = mid.params
-    asg = assigns_of(mid)
-    pos = [n for n in walk_own(mid.node) if isinstance(n, ast.Assign) and src(n.targets[0]).replace(' ', '') == 'taar[0:3]']
-    ok_pos = len(pos) == 1 and src(pos[0].value).replace(' ', '') == '(%s[0:3]+%s[0:3])/2' % (r1, r2)
-    rep.ob('R18.4', mid, 'midpoint position is the mean', ok_pos, 'position part is %s' % (src(pos[0].value) if pos else '?'))
-    Re = asg.get('Re', [None])[0]
-    Re2 = asg.get('Re2', [None])[0]
-    rmid = asg.get('rmid', [None])[0]
-    ok_re = Re is not None and src(Re).replace(' ', '') in ('(R1@R2.conj().T).conj().T', '(R1@R2.T).T', 'R2@R1.T', 'R2@R1.conj().T')
-    ok_re2 = Re2 is not None and src(Re2).replace(' ', '') in (
-        'mr.MatrixExp3(mr.VecToso3(mr.so3ToVec(mr.MatrixLog3(Re)/2)))', 'mr.MatrixExp3(mr.MatrixLog3(Re)/2)',
-        'mr.MatrixExp3(mr.VecToso3(mr.so3ToVec(mr.MatrixLog3(Re))/2))', 'mr.MatrixExp3(mr.VecToso3(mr.so3ToVec(mr.MatrixLog3(Re)/2.0)))')
-    ok_mid = rmid is not None and src(rmid).replace(' ', '') == 'Re2@R1'
-    rep.ob('R18.4', mid, 'midpoint rotation = exp(log(R2 R1^T)/2) R1', ok_re and ok_re2 and ok_mid,
-           'rotation part is not the geodesic half-way construction: Re=%s, Re2=%s, rmid=%s' % (
-               src(Re) if Re is not None else '?', src(Re2) if Re2 is not None else '?', src(rmid) if rmid is not None else '?'))
-    ad = F(FSR, 'arcDistance')
-    asg = assigns_of(ad)
-    ge = asg.get('geo_error', [None])[0]
-    dd = asg.get('d', [None])[0]
-    ok = ge is not None and src(ge) == 'globalToLocal(%s, %s)' % tuple(ad.params) and dd is not None and src(dd) == 'mr.Norm6(geo_error[0:6])'
-    rep.ob('R18.4', ad, 'Norm6(globalToLocal(a, b))', ok, 'arc distance is not the 6-norm of the relative pose')
-    la = F(FSR, 'lookAt')
-    asg = assigns_of(la)
-    p1, p2 = la.params
+    def spec_ob(fi, construct, specs, msg):
+        res = [tv.fi_matches_spec(model, fi, sp_) for sp_ in specs]
+        rep.ob('R18.4' if fi.name != 'chainJacobian' else 'R18.6', fi, construct, any(r[0] for r in res), msg + ': ' + res[0][1])
 
-    def first(name):
-        v = asg.get(name)
-        if not v:
-            return None
-        forms = {src(x).replace(' ', '') for x in v}
-        return forms.pop() if len(forms) == 1 else 'inconsistent:%s' % sorted(forms)
-    ok = first('va') == '%s[0:3].flatten()' % p1 and first('vb') == '%s[0:3].flatten()' % p2 and first('zax') == 'mr.Normalize(vb-va)' \
-        and first('xax') == 'mr.Normalize(np.cross(up,zax))' and first('yax') == 'np.cross(zax,xax)'
-    stores = {src(n.targets[0]).replace(' ', ''): src(n.value).replace(' ', '') for n in ast.walk(la.node)
-              if isinstance(n, ast.Assign) and isinstance(n.targets[0], ast.Subscript)}
-    ok = ok and stores.get('R2[0:3,0:3]') == 'np.array([xax,yax,zax]).T' and stores.get('R2[0:3,3]') == 'va'
-    rep.ob('R18.4', la, 'position kept; columns (x, y, z) with z = unit(target - position), y = z x x', ok,
-           'lookAt does not build a right-handed frame at the first point looking at the second')
+    spec_ob(F(FSR, 'IKPath'), 'steps-1 poses initial + delta*i with delta = (goal - initial)/(steps - 1), then the goal', ["""
+        def IKPath(start, end, n):
+            step = (end.gTAA() - start.gTAA())/(n - 1)
+            out = []
+            for k in range(n - 1):
+                out.append(tm(start.gTAA() + step * k))
+            out.append(end)
+            return out
+        """], 'the path is not `steps` evenly spaced poses ending with exactly the goal')
+    spec_ob(F(FSR, 'closeLinearGap'), 'origin + (goal-origin)/|goal-origin| * delta', ["""
+        def closeLinearGap(a, b, step):
+            diff = b - a
+            out = np.zeros((6, 1))
+            length = mr.Norm6(diff[0:6])
+            if length == 0:
+                return b
+            for k in range(6):
+                out[k] = a.TAA[k] + (diff[k] / length) * step
+            return tm(out)
+        """], 'closeLinearGap does not advance by exactly delta along the unit direction to the goal')
+    MID = """
+        def tmInterpMidpoint(a, b):
+            out = np.zeros((6, 1))
+            out[0:3] = (a[0:3] + b[0:3])/2
+            Ra = mr.MatrixExp3(mr.VecToso3(a[3:6].reshape((3))))
+            Rb = mr.MatrixExp3(mr.VecToso3(b[3:6].reshape((3))))
+            rel = %s
+            half = mr.MatrixExp3(%s)
+            out[3:6] = mr.so3ToVec(mr.MatrixLog3(half @ Ra)).reshape((3, 1))
+            return tm(out)
+        """
+    rels = ('(Ra @ (Rb.conj().T)).conj().T', '(Ra @ Rb.T).T', 'Rb @ Ra.T', 'Rb @ Ra.conj().T')
+    halves = ('mr.VecToso3(mr.so3ToVec(mr.MatrixLog3(rel)/2))', 'mr.MatrixLog3(rel)/2', 'mr.VecToso3(mr.so3ToVec(mr.MatrixLog3(rel))/2)')
+    spec_ob(F(FSR, 'tmInterpMidpoint'), 'midpoint: mean position; rotation = exp(log(R2 R1^T)/2) R1', [MID % (r_, h_) for r_ in rels for h_ in halves],
+            'the midpoint is not (mean position, geodesic half-way rotation)')
+    spec_ob(F(FSR, 'arcDistance'), 'Norm6(globalToLocal(a, b))', ["""
+        def arcDistance(a, b):
+            rel = globalToLocal(a, b)
+            return mr.Norm6(rel[0:6])
+        """], 'arc distance is not the 6-norm of the relative pose')
+    LOOK = """
+        def lookAt(a, b):
+            up = np.array([0, 0, 1])
+            pa = a[0:3].flatten()
+            pb = b[0:3].flatten()
+            z = mr.Normalize(pb-pa)
+            x = mr.Normalize(np.cross(up, z))
+            y = np.cross(z, x)
+            M = np.eye(4)
+            M[0:3, 0:3] = np.array([x, y, z]).T
+            M[0:3, 3] = pa
+            try:
+                out = tm(M)
+            except:
+                pb += np.array([0.00001, .0000001, 0.0])
+                z = mr.Normalize(pb-pa)
+                x = mr.Normalize(np.cross(up, z))
+                y = np.cross(z, x)
+                M = np.eye(4)
+                M[0:3, 0:3] = np.array([x, y, z]).T
+                M[0:3, 3] = pa
+                out = tm(M)
+            return out
+        """
+    spec_ob(F(FSR, 'lookAt'), 'position kept; columns (x, y, z) with z = unit(target - position), x = unit(up x z), y = z x x', [LOOK],
+            'lookAt does not build a right-handed frame at the first point looking at the second')
 
     # ---------------------------------------------------------------- R18.5
     rep.rule('R18.5', 'sphere samplers return unit vectors: x^2 + y^2 + z^2 == 1 identically')
-    for name, env0 in (('fiboSphere', {'theta': Poly.sym('theta'), 'phi': Poly.sym('phi')}),
-                       ('unitSphere', {'a': Poly.sym('a'), 'arccos_e': Poly.sym('u')})):
+    for name in ('fiboSphere', 'unitSphere'):
         fi = F(FSR, name)
-        itp = PolyInterp()
-        itp.env.update(env0)
+        il = Inliner(fi)
+        # the sample: the 3-element list that is appended to the result / turned into the result array
+        triples = [n for n in walk_own(fi.node) if isinstance(n, ast.List) and len(n.elts) == 3
+                   and isinstance(fi.module.parents.get(n), ast.Call) and n in fi.module.parents.get(n).args
+                   and norm_text(fi.module.parents.get(n).func).split('.')[-1] in ('append', 'array')]
+        trig = {a_.id for c in walk_own(fi.node) if isinstance(c, ast.Call) and norm_text(c.func) in ('np.sin', 'np.cos', 'math.sin', 'math.cos')
+                for a_ in c.args if isinstance(a_, ast.Name)}
         xyz = None
-        for n in ast.walk(fi.node):
-            if isinstance(n, ast.Assign):
-                tg = n.targets[0]
-                try:
-                    if isinstance(tg, ast.Tuple) and [src(t) for t in tg.elts] == ['x', 'y', 'z']:
-                        itp.bind(tg, itp.ev(n.value))
-                    elif isinstance(tg, ast.Name) and tg.id in ('x', 'y', 'z', 'sin_arccos_e'):
-                        itp.env[tg.id] = itp.ev(n.value)
-                except Uninterp:
-                    pass
-        if all(k in itp.env for k in ('x', 'y', 'z')):
-            x, y, z = itp.env['x'], itp.env['y'], itp.env['z']
-            xyz = x * x + y * y + z * z
+        if triples:
+            itp = PolyInterp()
+            for t_ in trig:
+                itp.env[t_] = Poly.sym(t_)
+            try:
+                comps = [itp.ev(il.expand(e, _stack=tuple(trig))) for e in triples[0].elts]
+                xyz = comps[0] * comps[0] + comps[1] * comps[1] + comps[2] * comps[2]
+            except Uninterp:
+                xyz = None
         rep.ob('R18.5', fi, 'x^2 + y^2 + z^2 == 1', xyz is not None and xyz == Poly.const(1),
                'sample norm squared is %s' % (xyz if xyz is not None else 'not recognised'))
 
@@ -315,18 +305,13 @@ def check(model, rep):
     rep.floor('R18.7', 'shared primitives under the helpers', len(n), 8)
     # ---------------------------------------------------------------- R18.6
     rep.rule('R18.6', 'chainJacobian = JacobianSpace recurrence with the same index offsets')
-    cj = F(FSR, 'chainJacobian')
-    sc, th = cj.params
-    loops = [n for n in cj.body() if isinstance(n, ast.For)]
-    first_col = [n for n in cj.body() if isinstance(n, ast.Assign) and src(n.targets[0]).replace(' ', '') == 'jac[0:6,0]']
-    ok = bool(first_col) and src(first_col[0].value).replace(' ', '') == '%s[0:6,0]' % sc
-    if len(loops) == 1:
-        lp = loops[0]
-        iv = lp.target.id
-        ok = ok and src(lp.iter).replace(' ', '') == 'range(1,np.size(%s))' % th
-        body = {src(n.targets[0]).replace(' ', ''): src(n.value).replace(' ', '') for n in lp.body if isinstance(n, ast.Assign)}
-        ok = ok and body.get('T') == 'T@transformFromTwist(%s[%s-1]*%s[0:6,%s-1])' % (th, iv, sc, iv) \
-            and body.get('jac[0:6,%s]' % iv) == 'T.adjoint()@%s[0:6,%s]' % (sc, iv)
-    else:
-        ok = False
-    rep.ob('R18.6', cj, 'J[:,0] = S0; T *= exp(theta[i-1] S[i-1]); J[:,i] = Ad(T) S[i]', ok, 'chainJacobian deviates from the space-Jacobian recurrence')
+    spec_ob(F(FSR, 'chainJacobian'), 'J[:,0] = S0; T *= exp(theta[i-1] S[i-1]); J[:,i] = Ad(T) S[i]', ["""
+        def chainJacobian(S, q):
+            J = np.zeros((6, np.size(q)))
+            acc = tm()
+            J[0:6, 0] = S[0:6, 0]
+            for k in range(1, np.size(q)):
+                acc = acc @ transformFromTwist(q[k-1] * S[0:6, k-1])
+                J[0:6, k] = acc.adjoint() @ S[0:6, k]
+            return J
+        """], 'chainJacobian deviates from the space-Jacobian recurrence')
